@@ -40,8 +40,8 @@ def primTraceTy : Prim → Trace.Ty
   | .f32 => .f32
   | .f64 => .f64
   | .char => .char
-  | .str => .string
-  | .bytes => .bytes
+  | .str | .strRef | .cowStr => .string
+  | .bytes | .bytesRef | .bytesSeq => .bytes      -- `deserialize_bytes` is what the tracer sees, whatever the Serialize side does
 
 mutual
 def toTraceTy : Ty → Trace.Ty
@@ -80,6 +80,10 @@ def primTarget : Prim → Read.Target
   | .char => .char
   | .str => .string          -- `String`
   | .bytes => .byteBuf       -- an owned byte buffer (`serde_bytes::ByteBuf`, `#[serde(with = "serde_bytes")] Vec<u8>`)
+  | .strRef => .str          -- `&'de str`: `deserialize_str`, the visitor takes `visit_borrowed_str` only
+  | .cowStr => .str          -- `#[serde(borrow)] Cow<'de, str>`: `deserialize_str`; driven with the more demanding `&'de str` visitor
+  | .bytesRef => .bytes      -- `&'de [u8]`: `deserialize_bytes`, the visitor takes `visit_borrowed_bytes` (/ `_str`) only
+  | .bytesSeq => .bytes
 
 mutual
 def toTarget : Ty → Read.Target
@@ -121,6 +125,10 @@ def dvalOf : Ty → Val → Read.DVal
   | .prim .char, .char c => .char c
   | .prim .str, .str s => .str .owned (Read.strBytes s)
   | .prim .bytes, .bytes b => .bytes .owned b
+  | .prim .strRef, .str s => .str .borrowed (Read.strBytes s)
+  | .prim .cowStr, .str s => .str .borrowed (Read.strBytes s)
+  | .prim .bytesRef, .bytes b => .bytes .borrowed b
+  | .prim .bytesSeq, .bytes b => .bytes .borrowed b
   | .unit, .unit => .unit
   | .unitStruct _, .unit => .unit
   | .option _, .none => .none
